@@ -157,6 +157,7 @@ void DNS_ICACHE_FLASH_ATTR supla_esp_dns_result() {
     os_timer_arm(&dns_client_vars.retry_timer, RETRY_DELAY_MS, 0);
 
   } else {
+    os_timer_disarm(&dns_client_vars.retry_timer);
     supla_esp_dns_request_release();
 
     if (dns_client_vars.dns_query_result_cb) {
